@@ -1,8 +1,8 @@
 (* C17 — property theorems only.  Each is closed by [exact <lemma>] so that it cannot be
    quietly weakened; the lemmas live in Proofs_*.v; the model in Model.v; Gen/C17.v is
    regenerated from /repo on every run. *)
-From Coq Require Import Permutation Sorting.Sorted.
-From Sdns Require Import Common.Base Common.GoList Gen.C17 C17.Model C17.Proofs_arith C17.Proofs_search C17.Proofs_set C17.Proofs_loops.
+From Coq Require Import String Permutation Sorting.Sorted.
+From Sdns Require Import Common.Base Common.GoList Gen.C17 C17.Model C17.Proofs_arith C17.Proofs_search C17.Run C17.Proofs_set C17.Proofs_loops C17.Proofs_writer.
 Open Scope N_scope.
 
 (* translator ties: the Go functions, as translated from the source now, are the order on
@@ -115,6 +115,93 @@ Theorem accesslist_ahead_of_answering_handlers :
   end = true.
 Proof. exact (conj chain_matches_gen accesslist_first_policy). Qed.
 Print Assumptions accesslist_ahead_of_answering_handlers.
+
+(* ---- who is internal (responseWriter.Reset), on every transport address type ---- *)
+
+(* source-text tie: the statements of Reset that decide w.internal are the ones the model was
+   written from (each address-type arm tests ITS OWN a.Port; no other assignment) *)
+Theorem reset_classification_pinned :
+  reset_arms = [bytes_of "UDPAddr"%string; bytes_of "TCPAddr"%string] /\
+  reset_tail = [bytes_of "internal = i.Internal()"%string] /\
+  reset_internal_assignments =
+    [bytes_of "false"%string; bytes_of "a.Port == 0 && a.IP.Equal(internalIP)"%string;
+     bytes_of "a.Port == 0 && a.IP.Equal(internalIP)"%string; bytes_of "i.Internal()"%string].
+Proof. exact reset_text_pinned. Qed.
+Print Assumptions reset_classification_pinned.
+
+Theorem sentinel_is_one_address :
+  sentinel_v4 = 2130706687 /\ buffer_remote_v4 = sentinel_v4 /\ buffer_remote_port = 0%Z /\
+  ((mock_sentinel_o0 * 256 + mock_sentinel_o1) * 256 + mock_sentinel_o2) * 256 + mock_sentinel_o3 = sentinel_v4.
+Proof. exact sentinel_values. Qed.
+Print Assumptions sentinel_is_one_address.
+
+(* internal <=> the writer was created by the sub-query pipeline: the transport declares it
+   (BufferWriter.Internal) or the remote is the sentinel with port 0 — for every transport *)
+Theorem internal_iff_subquery_writer : forall r,
+  writer_internal r = true <->
+  r_says r = Some true \/ (r_kind r <> KOther /\ r_port r = 0%Z /\ ip_is_sentinel (r_ip r) = true).
+Proof. exact internal_iff. Qed.
+Print Assumptions internal_iff_subquery_writer.
+
+Theorem internal_classification_is_spec : forall r, (forall a, r_ip r = Some a -> addr_ok a) ->
+  writer_internal r = spec_subquery r.
+Proof. exact writer_internal_is_spec. Qed.
+Print Assumptions internal_classification_is_spec.
+
+Theorem client_is_never_internal : forall r,
+  r_says r <> Some true -> (r_port r <> 0%Z \/ ip_is_sentinel (r_ip r) = false) -> writer_internal r = false.
+Proof. exact client_never_internal. Qed.
+Print Assumptions client_is_never_internal.
+
+Theorem subquery_writer_is_internal :
+  writer_internal subquery_remote = true /\ sentinel_remote subquery_remote = true /\
+  r_says subquery_remote = Some true.
+Proof. exact subquery_internal. Qed.
+Print Assumptions subquery_writer_is_internal.
+
+(* the access list as the chain runs it, for every transport: exact *)
+Theorem accesslist_exact_on_every_transport : forall n_entries ps r,
+  Forall (fun p => prefix_ok p = true) ps -> (forall a, r_ip r = Some a -> addr_ok a) ->
+  acl_serve_remote (new_set (acl_effective n_entries ps)) r =
+  if spec_allowed (acl_effective n_entries ps) r then AclNext else AclDrop.
+Proof. exact acl_remote_config_exact. Qed.
+Print Assumptions accesslist_exact_on_every_transport.
+
+(* ... and every client (real source port, or not the sentinel address) is judged by containment
+   of its peer address and nothing else, whatever the address type *)
+Theorem every_client_is_judged_by_the_list : forall ps r,
+  Forall (fun p => prefix_ok p = true) ps -> (forall a, r_ip r = Some a -> addr_ok a) ->
+  r_says r <> Some true -> (r_port r <> 0%Z \/ ip_is_sentinel (r_ip r) = false) ->
+  acl_serve_remote (new_set ps) r =
+  match spec_client_ip r with
+  | Some a => if spec_contains ps a then AclNext else AclDrop
+  | None => AclDrop
+  end.
+Proof. exact acl_client_judged. Qed.
+Print Assumptions every_client_is_judged_by_the_list.
+
+(* views as the chain runs them: skipped for genuine sub-queries only, first matching view *)
+Theorem views_exact_on_every_transport : forall (views : list (list prefix * bool)) r,
+  Forall (fun v => Forall (fun p => prefix_ok p = true) (fst v)) views -> (forall a, r_ip r = Some a -> addr_ok a) ->
+  view_serve_remote (map (fun v => (new_set (fst v), snd v)) views) r =
+  if spec_subquery r then None else
+  match spec_client_ip r with Some a => spec_first_view views a 0 | None => None end.
+Proof. exact view_remote_exact. Qed.
+Print Assumptions views_exact_on_every_transport.
+
+Example writer_examples :
+  (* a TCP client FROM the sentinel address with a real port is a client, and is dropped by a LAN list *)
+  let lan := [mk_prefix true 167772160 8] in
+  let tcp_client := mk_remote KTcp (Some (mk_addr true 2130706687)) 40000 None in
+  writer_internal tcp_client = false /\ acl_serve_remote (new_set lan) tcp_client = AclDrop /\
+  (* the mapped form over the DoH writer (which reports Internal() = false) likewise *)
+  writer_internal (mk_remote KTcp (Some (mk_addr false (mapped_prefix + 2130706687))) 443 (Some false)) = false /\
+  (* the sub-query writer passes *)
+  acl_serve_remote (new_set lan) subquery_remote = AclNext /\
+  (* neighbours of the sentinel with port 0 are clients *)
+  writer_internal (mk_remote KUdp (Some (mk_addr true 2130706686)) 0 None) = false /\
+  writer_internal (mk_remote KUdp (Some (mk_addr true 2130706944)) 0 None) = false.
+Proof. vm_compute. repeat split. Qed.
 
 (* non-vacuity: concrete lists and addresses meeting the hypotheses, with both verdicts *)
 Example membership_example :
